@@ -169,15 +169,26 @@ func vfSyncTo(ctx context.Context, to iface.Store, heads []ipfslog.Entry, want m
 	if err := to.Sync(ctx, heads); err != nil {
 		vfInfra("sync: %v", err)
 	}
-	deadline := time.After(30 * time.Second)
+	// on a loaded machine a replication round can be dropped (a fetch that timed out): ask again every 10 s,
+	// give up (infrastructure, never a verdict) after 120 s
+	deadline := time.After(120 * time.Second)
+	again := time.NewTicker(10 * time.Second)
+	defer again.Stop()
 	for {
 		select {
 		case <-sub.Out():
 			if hasAll() {
 				return
 			}
+		case <-again.C:
+			if hasAll() {
+				return
+			}
+			if err := to.Sync(ctx, heads); err != nil {
+				vfInfra("sync (repeated): %v", err)
+			}
 		case <-deadline:
-			vfInfra("sync did not complete within 30s")
+			vfInfra("sync did not complete within 120s")
 		}
 	}
 }
